@@ -194,6 +194,16 @@ class Driver:
         self.calls[key] = self.calls.get(key, 0) + 1
         try:
             result = job.task.func(*args, **kwargs)
+            if job.task.is_async():
+                # async task functions return a coroutine: run it to completion here (the library
+                # tasks used under the controlled loop do not await redun expressions)
+                import asyncio
+
+                loop = asyncio.new_event_loop()
+                try:
+                    result = loop.run_until_complete(result)
+                finally:
+                    loop.close()
             ok = True
         except Exception as e:  # noqa
             result, ok = e, False
